@@ -54,8 +54,10 @@ Slice(b, at, n) ==                                   \* bounds-checked read of n
 Startup(b) == IF ~IsSmall(CountF(b)) \/ ~IsSmall(SizeF(b)) THEN ERR
               ELSE Slice(b, Sco(b), Num(SizeF(b)))
 
+HUGEID == 2147483647          \* stand-in for ids of 2^32 and beyond (past every table: counts are 32-bit)
 GetModule(b, i) ==
-    IF IsSmall(CountF(b)) /\ i >= Num(CountF(b)) THEN ERR             \* id past the table
+    IF i = HUGEID THEN ERR
+    ELSE IF IsSmall(CountF(b)) /\ i >= Num(CountF(b)) THEN ERR             \* id past the table
     ELSE IF 12 + 8 * i + 8 > Len(b) THEN ERR                          \* table entry outside the buffer
     ELSE LET off == Field(b, 12 + 8 * i)  len == Field(b, 12 + 8 * i + 4) IN
          IF off = LE(0) /\ len = LE(0) THEN NONE                       \* empty slot
